@@ -28,6 +28,7 @@ type sstDmgTable struct {
 	recOffs      []int // start of every data record
 	hdrLens      []int // header length of every data record
 	desc         string
+	optRng       *Rng // second generator state: the order in which the read options are passed to every reader
 }
 
 func sstDmgMake(r *Rng, dir string, tier string, idx int) (*sstDmgTable, error) {
@@ -183,7 +184,7 @@ func runSstDmg(res *Result, drv *Driver, seed uint64, n int, tier string, only i
 	}
 	defer os.RemoveAll(root)
 	res.Rule = "small generated tables under each data compression type x {every byte offset of data.rio x (8 bit flips, 0x00, 0xff, marker bytes), every truncation length, swapped neighbouring records} " +
-		"x {verify on load (default options), skip-on-load + verify on every read} x {slice always; skip-list, map4, map20 loaders in rotation}; one evaluation = one returned value checked or one model comparison; " +
+		"x {verify on load (default options), skip-on-load + verify on every read; the read options passed in a generated order: every permutation} x {slice always; skip-list, map4, map20 loaders in rotation}; one evaluation = one returned value checked or one model comparison; " +
 		"non-trivial = damaged file differs from the original; distinct = distinct (table, damaged bytes)"
 	for idx := 0; idx < n; idx++ {
 		if only >= 0 && idx != only {
@@ -198,6 +199,7 @@ func runSstDmg(res *Result, drv *Driver, seed uint64, n int, tier string, only i
 		if err != nil {
 			return err
 		}
+		t.optRng = NewRng(seed^0x0097045eed, uint64(idx))
 		if err := sstDmgOne(res, drv, r, t, idx, dir, tier); err != nil {
 			return err
 		}
@@ -260,7 +262,19 @@ func sstDmgOne(res *Result, drv *Driver, r *Rng, t *sstDmgTable, idx int, dir st
 		res.Stat("damage:" + kind)
 		var implOuts []string
 		for _, cfg := range cfgs {
-			rd, err := sstOpenReader(dir, cfg, 4096)
+			// the read options are passed in a generated order (every permutation of the options the configuration uses);
+			// the verification mode asked for, and told to the model, is the same in every order
+			rd, order, err := sstOpenReaderOrdered(dir, cfg, 4096, "", t.optRng)
+			if si, ci := strings.Index(order, "skip-check-on-load"), strings.Index(order, "check-on-reads"); si >= 0 && ci >= 0 {
+				if ci < si {
+					res.Stat("options-order:check-on-reads-before-skip-on-load")
+				} else {
+					res.Stat("options-order:skip-on-load-before-check-on-reads")
+				}
+			}
+			if !strings.HasPrefix(order, "base-path>buffer-size") {
+				res.Stat("options-order:not-the-fixed-order")
+			}
 			if err != nil {
 				res.Stat("outcome:open-failed")
 				implOuts = append(implOuts, "open-err:"+strings.TrimPrefix(sstErr(err), "err:"))
@@ -297,7 +311,7 @@ func sstDmgOne(res *Result, drv *Driver, r *Rng, t *sstDmgTable, idx int, dir st
 						if crc64Ref(ov) == 0 {
 							sig = "value-crc64-zero:checksum-bypass"
 						}
-						res.Violate(idx, "C09", sig, fmt.Sprintf("%s %s %s: key %s written %s served %s", cfg.modelString(), p.String(), detail, gb([]byte(pr[0])), gb(ov), pr[1]), t.desc+" damaged="+hexs(dmg))
+						res.Violate(idx, "C09", sig, fmt.Sprintf("%s options=%s %s %s: key %s written %s served %s", cfg.modelString(), order, p.String(), detail, gb([]byte(pr[0])), gb(ov), pr[1]), t.desc+" options="+order+" damaged="+hexs(dmg))
 					} else {
 						res.Stat("outcome:original-served")
 					}
